@@ -309,6 +309,7 @@ theorem uframe_step (sl : RemKind → Bool → Bool) (o px : Lid) (s : UState) (
   | closeExitSockets => exact ⟨h1, h2, h3, h4⟩
   | clearTable k => cases k <;> exact ⟨h1, h2, h3, h4⟩
   | clearEndpointRef => simp only [UState.core]; split <;> exact ⟨h1, h2, h3, h4⟩
+  | unloadChildren => exact ⟨h1, h2, h3, h4⟩
 
 /-- the registry part of the state after any unload op: only `remove` and `clearFwd` steps happen -/
 theorem ustep_world (sl : RemKind → Bool → Bool) (s : UState) (op : UOp) :
@@ -371,14 +372,15 @@ theorem step_proj (sl : RemKind → Bool → Bool) (acq : Nat → Nat) (s : USta
     (s.step sl acq op).bootDown = (s.core sl op).bootDown ∧ (s.step sl acq op).circuits = (s.core sl op).circuits ∧
     (s.step sl acq op).relays = (s.core sl op).relays ∧
     ((s.core sl op).canAcquire = false → (s.step sl acq op).openExit = (s.core sl op).openExit ∧
-                                          (s.step sl acq op).exits = (s.core sl op).exits) := by
+                                          (s.step sl acq op).exits = (s.core sl op).exits ∧
+                                          (s.step sl acq op).children = (s.core sl op).children) := by
   unfold UState.step
   simp only
   split
   · next h =>
     refine ⟨rfl, rfl, rfl, rfl, rfl, rfl, rfl, rfl, rfl, rfl, rfl, ?_⟩
     intro ht; simp [ht] at h
-  · exact ⟨rfl, rfl, rfl, rfl, rfl, rfl, rfl, rfl, rfl, rfl, rfl, fun _ => ⟨rfl, rfl⟩⟩
+  · exact ⟨rfl, rfl, rfl, rfl, rfl, rfl, rfl, rfl, rfl, rfl, rfl, fun _ => ⟨rfl, rfl, rfl⟩⟩
 
 theorem core_tmDown_mono (sl : RemKind → Bool → Bool) (s : UState) (op : UOp) (h : s.tmDown = true) :
     (s.core sl op).tmDown = true := by
@@ -387,6 +389,7 @@ theorem core_tmDown_mono (sl : RemKind → Bool → Bool) (s : UState) (op : UOp
   | awaitRemovals => simp only [UState.core]; exact (finishAll_frame s.removals { s with removals := [] }).2.2.2.2.1.trans h
   | clearTable k => cases k <;> exact h
   | clearEndpointRef => simp only [UState.core]; split <;> exact h
+  | unloadChildren => exact h
   | _ => simp [UState.core, h]
 
 theorem lists_false_of_absent {o : Lid} {r : Reg} (h : Absent o r) : r.lists o = false := by
